@@ -1,4 +1,6 @@
 """Small matching helpers shared by the rule modules."""
+import collections
+import re
 from engine.woodlint.db import E, Unrecognised, name_matches, as_relation, flatten_bool, Pos, show, short  # noqa: F401
 
 
@@ -312,3 +314,51 @@ def field_or_accessor(prog, e, field, param=1):
             if g.argc == 1 and g.is_acyclic() and len(list(g.calls())) == 0 and any(is_param_field(n, field, 1) for n in g.local_expr(0, []).walk()):
                 return True
     return False
+
+
+# ---- scans run over everything they are given -------------------------------------------------------------------------
+# Iterator adaptors that make a loop see fewer elements than its source yields, or see them in another order.  The library
+# uses three of them (counted on the reference tree); a *new* one in a function a property stands on -- `.take(4096)` on the
+# tag section of the encoder, `.enumerate().take(64)` on the tombstone scan of the sorted deque -- passes every test written
+# with a handful of elements and breaks the property from that many elements on.
+_DROPPING = re.compile(r'Iterator(?:<[^>]*>)?>?::(take|skip|step_by|take_while|skip_while|map_while|filter|filter_map|rev|nth)$')
+SCAN_ALLOWED = {
+    'rough_tlv::decoder::MessageView::new': {'skip': 1},                  # xs.iter().zip(xs.iter().skip(1)): adjacent offsets
+    'rough_tlv::encoder::MessageWrapper::new_from_sorted': {'skip': 1},   # elements.iter().zip(elements.iter().skip(1)): adjacent tags
+    'sliding_deque::sorted_deque::SortedDeque::iter': {'filter': 1},      # the public iterator hides tombstones
+}
+
+
+def scan_rule(prefixes):
+    """Build the rule `no new element-dropping iterator adaptor` for the functions whose path starts with one of `prefixes`."""
+    def rule(cx):
+        per_fn = {}
+        seen = 0
+        for fn in cx.prog.find_fns(lambda f: any(f.name.startswith(p) for p in prefixes)):
+            owner = re.sub(r'(::\{closure#\d+\})+$', '', fn.name)
+            c = per_fn.setdefault(owner, (collections.Counter(), [], fn))
+            for cs in fn.calls():
+                if 'Iterator' in cs.callee:
+                    seen += 1
+                m = _DROPPING.search(cs.callee)
+                if m and not cs.t.get('exp'):
+                    c[0][m.group(1)] += 1
+                    c[1].append(cs)
+        cx.require(per_fn, 'no function under %s' % (prefixes,))
+        bad = 0
+        for owner in sorted(per_fn):
+            cnt, sites, fn = per_fn[owner]
+            allowed = SCAN_ALLOWED.get(owner, {})
+            extra = {k: v - allowed.get(k, 0) for k, v in cnt.items() if v > allowed.get(k, 0)}
+            if cnt or extra:
+                cx.count_sites()
+                cx.check(not extra, 'scan-complete:' + short(owner), fn, sites[0].loc() if sites else None,
+                         'element-dropping adaptors are the audited ones: %s' % (dict(cnt) or 'none'),
+                         fail_detail='%s gains %s: the loop no longer visits every element of its source, in order (audited on the reference tree: %s)'
+                         % (short(owner), ', '.join('.%s() x%d' % kv for kv in sorted(extra.items())), allowed or 'none'))
+                bad += bool(extra)
+        cx.check(bad == 0, 'scan-inventory', None, None, '%d functions under %s, %d iterator calls: no element-dropping adaptor beyond the audited ones'
+                 % (len(per_fn), '/'.join(prefixes), seen), fail_detail='%d function(s) gained an element-dropping iterator adaptor' % bad)
+    rule.__doc__ = ('loops visit every element: no iterator adaptor that drops or reorders elements (take, skip, step_by, take_while, skip_while, '
+                    'map_while, filter, filter_map, rev, nth) in %s beyond the three audited on the reference tree' % ', '.join(prefixes))
+    return rule
